@@ -5,6 +5,7 @@ import ast
 
 from .. import AnalysisError, flow, states, cmp
 from ..index import index, in_pkg
+from ..loader import parent
 from ..report import Ctx
 from .. import rules
 
@@ -396,6 +397,42 @@ def constructors(ctx: Ctx):
             if "total_stalls" in kw:
                 good = kw.get("total_stalls") == kw.get("available_stalls")
     ctx.check(good, "D8", "DU.constructor", "Base.build: available_stalls = total_stalls", fn, why_bad="initial stalls differ", construct="Base.build")
+    # a counter record in its INITIAL state (everything free, nobody waiting) may enter the simulation only where a station / base is
+    # first built or extended: built anywhere else (a re-pricing, a copy helper) it resets the counters of plugs that are in use
+    idx = index(repo)
+    ALLOWED = {
+        "ChargerState": {(ST, "Station.build"), (ST, "Station.append_chargers"), (CS, "ChargerState.build")},
+        "Base": {(BASE, "Base.build"), (BASE, "Base.from_row")},
+    }
+    n = 0
+    for cname, allowed in ALLOWED.items():
+        sites = [s for s in idx.calls(cname, refs=True) if in_pkg(s) and not s.file.startswith("nrel/hive/resources")]
+        for s in idx.calls("build", refs=True) + idx.calls("_make", refs=True):
+            f = s.node.func if isinstance(s.node, ast.Call) else s.node
+            if in_pkg(s) and not s.file.startswith("nrel/hive/resources") and isinstance(f, ast.Attribute) and flow.dump(f.value) in (cname, "cls") and \
+                    (flow.dump(f.value) == cname or (s.func is not None and s.func.cls is not None and s.func.cls.name == cname)):
+                sites.append(s)
+        for s in sites:
+            if s.kind not in ("call", "ref"):
+                continue
+            if s.kind == "ref" and not isinstance(parent(s.node), ast.Call):
+                # a bare mention (annotation, isinstance) is not a construction
+                par = parent(s.node)
+                if not (isinstance(par, (ast.keyword, ast.Call, ast.Assign, ast.Return, ast.Tuple))):
+                    continue
+            if s.kind == "ref":
+                continue
+            n += 1
+            top = s.func
+            while top is not None and top.outer is not None:
+                top = top.outer
+            ok = top is not None and (top.relpath, top.qualname) in allowed
+            ctx.check(ok, "D8", "WMC.callers", f"a fresh {cname} (initial counters) is built in {s.qual}", s.func, s.node,
+                      why_ok="construction / extension of the entity",
+                      why_bad=f"{s.file}:{s.line} builds a {cname} in its initial state (all plugs / stalls free, nobody waiting) outside the construction of the entity: "
+                              f"whatever the counters said at that moment is lost while vehicles still hold plugs, stalls or queue slots",
+                      construct=f"fresh-{cname}:{s.file}:{s.qual}")
+    ctx.require(n >= 4, f"constructor census saw only {n} constructions of ChargerState / Base")
 
 
 def selftest():
